@@ -79,8 +79,11 @@ fn main() {
         let mut rng = rng::Rng::derive(seed, "corpus", 0);
         let mut lines: Vec<String> = Vec::new();
         let per: usize = if thorough { 12 } else { 4 };
+        // many frames with random field values per type: a configuration-dependent difference in one field's
+        // arithmetic may show for a fraction of a percent of the raw values only
+        let per_random: usize = if thorough { 3000 } else { 500 };
         for &n in gen::supported_numbers() {
-            for _ in 0..per {
+            for _ in 0..per_random {
                 if let Some(f) = gen::lib_frame_random(n, &mut rng) {
                     lines.push(mon::hex(&f));
                 }
